@@ -106,6 +106,8 @@ def spice(draw: t.Any, v: t.Any, depth: int = 0) -> t.Any:
 @st.composite
 def cases(draw, specs: st.SearchStrategy[t.Any]) -> t.Any:
     spec = draw(specs)
+    if draw(st.integers(0, 5)) == 5 and spec[0] not in ('struct', 'tup'):
+        spec = ('union', 'Optional', (spec,))       # documents may then be null
     nd = tg.node(spec)
     v = tg.plainify(draw(nd.valid()))
     if draw(st.integers(0, 2)) == 2:
@@ -133,7 +135,7 @@ def cases(draw, specs: st.SearchStrategy[t.Any]) -> t.Any:
             opts['explicit_start'] = False
         if draw(st.integers(0, 2)) == 2:
             opts['explicit_end'] = True
-    ndocs = draw(st.integers(0, 3)) if fmt == 'yaml' and draw(st.integers(0, 3)) == 3 else None
+    ndocs = draw(st.integers(0, 4)) if fmt == 'yaml' and draw(st.integers(0, 2)) == 2 else None
     return [spec, v, fmt, sink, opts, ndocs]
 
 
@@ -321,8 +323,14 @@ def check(case: t.Any, ctx: Ctx) -> None:
         elif ndocs is not None and fmt == 'yaml':
             buf = io.StringIO()
             o2 = dict(opts, explicit_start=True)
-            for _ in range(ndocs):
-                (k, r) = outcome(lambda: pane.write_yaml(x, buf, ty=T, **o2))
+            docs = [x] * ndocs
+            (kn, xn) = outcome(lambda: pane.from_data(None, T))
+            if kn == 'ok' and xn is None and ndocs >= 1:
+                # the type admits null documents: put them in the middle and (for odd counts) at the end
+                docs = [None if (i % 2 == 1 or (i == ndocs - 1 and ndocs % 2 == 1)) else x for i in range(ndocs)]
+                ctx.label('yaml_all:null-documents')
+            for xd in docs:
+                (k, r) = outcome(lambda: pane.write_yaml(xd, buf, ty=T, **o2))
                 if k != 'ok':
                     fail_exc('write', r)
                     return
@@ -335,12 +343,12 @@ def check(case: t.Any, ctx: Ctx) -> None:
             if k != 'ok':
                 if fail_exc('from_yaml_all', ys):
                     return
-            if not isinstance(ys, list) or len(ys) != ndocs or any(same(y, x) is not None for y in ys):
-                ctx.fail('yaml-all', f"docs:{ndocs}", f"{ident}; {ndocs} documents written, from_yaml_all returned {short(ys, 150)}")
+            if not isinstance(ys, list) or len(ys) != ndocs or any(same(y, xd) is not None for (y, xd) in zip(ys, docs)):
+                ctx.fail('yaml-all', f"docs:{ndocs}", f"{ident}; {ndocs} documents written ({short(docs, 100)}), from_yaml_all returned {short(ys, 150)}")
                 return
             if is_cls:
                 (k, ys2) = outcome(lambda: T.from_yaml_all(io.StringIO(buf.getvalue())))
-                if k != 'ok' or len(ys2) != ndocs or any(same(y, x) is not None for y in ys2):
+                if k != 'ok' or len(ys2) != ndocs or any(same(y, xd) is not None for (y, xd) in zip(ys2, docs)):
                     ctx.fail('yaml-all', 'classmethod', f"{ident}; Cls.from_yaml_all disagrees: {short(ys2, 150)}")
     finally:
         SKIP_EXCLUDED[0] = False
